@@ -288,7 +288,7 @@ Arguments bevents : simpl never.
 Arguments l2_denom : simpl never.
 
 Record inv (c : scfg) (s : sys) : Prop := {
-  i_solv : ∀ d, solvent c s d;
+  i_solv : ∀ d, solvent c s d ∨ denom_collision c;
   i_pairs : ∀ d' base, L2.pairs (l2 s) !! d' = Some base → d' = l2d c base;
   i_ev_seq : NoDup (L1.e_seq <$> bevents c (l1 s));
   i_ev_lt : ∀ ev, ev ∈ bevents c (l1 s) →
@@ -317,7 +317,8 @@ Lemma inv_l1_update c s s1 (dn : list (bytes * Z)) :
   inv c s → inv c {| l1 := s1; l2 := l2 s; paid := paid s; donated := dn |}.
 Proof.
   intros Hel Hsq Hpr Hbal [I1 I2 I3 I4 I5 I6 I7 I8]. split; cbn.
-  - intros d. specialize (I1 d). specialize (Hbal d). unfold solvent, pending_dep, pending_wd, donations in *. cbn in *.
+  - intros d. destruct (I1 d) as [I1d|Hc]; [left|by right]. clear I1.
+    specialize (Hbal d). unfold solvent, pending_dep, pending_wd, donations in *. cbn in *.
     rewrite (bevents_same c s1 (l1 s) Hel). lia.
   - done.
   - by rewrite (bevents_same c s1 (l1 s) Hel).
@@ -365,7 +366,8 @@ Proof.
       destruct (decide (d = d0)) as [->|Hne]; [by rewrite decide_True|rewrite decide_False by congruence; lia].
     - rewrite Hbk. apply Z.ltb_ge in E. destruct (decide _); lia. }
   split; cbn.
-  - intros d. specialize (I1 d). unfold solvent, pending_dep, pending_wd, donations in *. cbn in *.
+  - intros d. destruct (I1 d) as [I1d|Hc]; [left|by right]. clear I1.
+    unfold solvent, pending_dep, pending_wd, donations in *. cbn in *.
     rewrite HE, Hbev. cbn [zsum]. fold ev. cbn [L1.e_seq L1.e_l1denom L1.e_amt ev].
     assert (Hc : d = d0 ∨ d ≠ d0) by (destruct (decide (d = d0)); auto). destruct Hc as [->|Hne].
     + rewrite decide_True by done. rewrite bool_decide_eq_true_2 by done. lia.
@@ -408,7 +410,8 @@ Lemma inv_l2_frame c s s2 :
   inv c s → inv c (set_l2 s s2).
 Proof.
   intros H1 H2 H3 H4 H5 [I1 I2 I3 I4 I5 I6 I7 I8]. split; cbn; rewrite ?H1, ?H2, ?H3, ?H4; auto.
-  intros d. specialize (I1 d). unfold solvent, pending_dep, pending_wd, donations in *. cbn in *.
+  intros d. destruct (I1 d) as [I1d|Hc]; [left|by right]. clear I1.
+  unfold solvent, pending_dep, pending_wd, donations in *. cbn in *.
   rewrite H1, H4, (gets_sup _ _ _ H5). done.
 Qed.
 
@@ -424,7 +427,8 @@ Proof.
     assert (Hnp : L2.next_l2 (l2 s) ∉ paid s).
     { intros Hm. pose proof (paid_lt c s _ I Hm). lia. }
     split; cbn.
-    + intros d. specialize (I1 d). unfold solvent, pending_dep, pending_wd, donations in *. cbn in *.
+    + intros d. destruct (I1 d) as [I1d|Hc]; [left|by right]. clear I1.
+      unfold solvent, pending_dep, pending_wd, donations in *. cbn in *.
       rewrite (bank_burn_Some _ _ _ _ _ Hs2), !(gets_sup _ _ _ (bank_send_sup _ _ _ _ _ _ Hs1)).
       assert (Hc : l2d c d = w3 ∨ l2d c d ≠ w3) by (destruct (decide (l2d c d = w3)); auto).
       destruct Hc as [<-|Hne].
@@ -454,3 +458,233 @@ Proof.
     eapply (fold_send_sup (λ b cn, bank_send b (L2.feecol (c2 c)) rr cn.1 cn.2)) in Hb; [exact Hb|].
     intros; by eapply bank_send_sup.
 Qed.
+
+Lemma nodup_key_inj {A} (key : A → N) l x y :
+  NoDup (key <$> l) → x ∈ l → y ∈ l → key x = key y → x = y.
+Proof.
+  induction l as [|a l IH]; intros Hnd Hx Hy Hk; [by apply elem_of_nil in Hx|].
+  rewrite fmap_cons in Hnd. apply NoDup_cons in Hnd as [Hna Hnd].
+  apply elem_of_cons in Hx as [->|Hx]; apply elem_of_cons in Hy as [->|Hy]; auto.
+  - exfalso. apply Hna. rewrite Hk. by apply elem_of_list_fmap_1.
+  - exfalso. apply Hna. rewrite <- Hk. by apply elem_of_list_fmap_1.
+Qed.
+
+Lemma set_l2_same s : set_l2 s (l2 s) = s.
+Proof. by destruct s. Qed.
+
+Lemma step_relay c s k ex h hook : inv c s → inv c (sys_step c s (SRelay k ex h hook)).1.
+Proof.
+  intros I. cbn [sys_step]. destruct (find_event c (l1 s) k) as [ev|] eqn:Hf; [|done].
+  apply find_elem in Hf as [Hin Hk]. apply N.eqb_eq in Hk.
+  unfold lift2, L2.step. cbn [L2.handle].
+  destruct (L2.finalize_deposit (c2 c) (l2 s) (relay_msg ev ex h hook)) as [[s2 r]|] eqn:Hd; [|done].
+  cbn [fst]. apply finalize_deposit_effect in Hd as [(-> & ->)|(Hseq & Hn1 & Hp & Hcase)].
+  { by rewrite set_l2_same. }
+  cbn [relay_msg L2.fd_seq L2.fd_denom L2.fd_base L2.fd_amt L2.fd_to L2.fd_from] in *.
+  pose proof I as [I1 I2 I3 I4 I5 I6 I7 I8].
+  destruct (I4 ev Hin) as [Hlt Hl2d].
+  assert (HU : ∀ d, pending_dep c (set_l2 s s2) d =
+                    (pending_dep c s d - (if bool_decide (L1.e_l1denom ev = d) then L1.e_amt ev else 0))%Z).
+  { intros d. unfold pending_dep. cbn [set_l2 l1 l2]. rewrite Hn1.
+    rewrite (zsum_remove L1.e_seq
+               (λ ev0, if bool_decide ((L2.next_l1 (l2 s) ≤ L1.e_seq ev0)%N ∧ L1.e_l1denom ev0 = d)
+                       then L1.e_amt ev0 else 0%Z) _ (bevents c (l1 s)) ev I3 Hin).
+    - f_equal. assert (Hc : L1.e_l1denom ev = d ∨ L1.e_l1denom ev ≠ d) by (destruct (decide (L1.e_l1denom ev = d)); auto).
+      destruct Hc as [Hc|Hc].
+      + rewrite !bool_decide_eq_true_2; auto. split; [lia|done].
+      + rewrite !bool_decide_eq_false_2; auto. by intros [_ ?].
+    - intros y Hy Hne. assert (L1.e_seq y ≠ L2.next_l1 (l2 s)) by congruence.
+      erewrite bool_decide_ext; [reflexivity|]. split; intros [? ?]; (split; [lia|done]).
+    - rewrite bool_decide_eq_false_2; [done|]. intros [? _]. lia. }
+  assert (Hsub : ∀ x y, L2.pairs (l2 s) !! x = Some y → L2.pairs s2 !! x = Some y).
+  { intros x y Hxy. rewrite Hp. destruct (L2.pairs (l2 s) !! L1.e_l2denom ev) eqn:E; [done|].
+    destruct (decide (x = L1.e_l2denom ev)) as [->|Hne]; [congruence|]. by rewrite lookup_insert_ne. }
+  assert (Hpf : ∀ d' base, L2.pairs s2 !! d' = Some base → d' = l2d c base).
+  { intros d' base. rewrite Hp. destruct (L2.pairs (l2 s) !! L1.e_l2denom ev) eqn:E; [apply I2|].
+    destruct (decide (d' = L1.e_l2denom ev)) as [->|Hne].
+    - rewrite lookup_insert. intros [= <-]. done.
+    - rewrite lookup_insert_ne by done. apply I2. }
+  assert (Hnp : L2.next_l2 (l2 s) ∉ paid s).
+  { intros Hm. pose proof (paid_lt c s _ I Hm). lia. }
+  (* the per-denom case analysis shared by both outcomes *)
+  assert (Hcases : ∀ d, L1.e_l1denom ev = d ∨
+                        (L1.e_l1denom ev ≠ d ∧ L1.e_l2denom ev ≠ l2d c d) ∨ denom_collision c).
+  { intros d. destruct (decide (L1.e_l1denom ev = d)) as [|Hne]; [by left|right].
+    destruct (decide (L1.e_l2denom ev = l2d c d)) as [Heq|]; [right|by left].
+    exists (L1.e_l1denom ev), d. split; [done|]. by rewrite <- Hl2d. }
+  destruct Hcase as [(Hw & Hn2 & Hs)|(base & Hb & Hn2 & Hw & Hs)].
+  - (* credited *)
+    split; cbn [set_l2 l1 l2 paid donated]; auto.
+    + intros d. destruct (I1 d) as [I1d|Hc]; [|by right]. clear I1.
+      destruct (Hcases d) as [Hd|[[Hd1 Hd2]|Hc]]; [left|left|by right].
+      * unfold solvent in *. rewrite HU. unfold pending_wd, donations in *. cbn [set_l2 l1 l2 paid donated].
+        rewrite Hw, Hs. subst d. rewrite Hl2d. rewrite decide_True by done.
+        rewrite bool_decide_eq_true_2 by done. lia.
+      * unfold solvent in *. rewrite HU. unfold pending_wd, donations in *. cbn [set_l2 l1 l2 paid donated].
+        rewrite Hw, Hs. rewrite decide_False by congruence. rewrite bool_decide_eq_false_2 by done. lia.
+    + rewrite Hn1. lia.
+    + by rewrite Hw.
+    + rewrite Hw, Hn2. intros w Hin'. destruct (I7 w Hin'). split; [done|]. by apply Hsub.
+    + rewrite Hw. done.
+  - (* refunded: one more recorded withdrawal *)
+    split; cbn [set_l2 l1 l2 paid donated]; auto.
+    + intros d. destruct (I1 d) as [I1d|Hc]; [|by right]. clear I1.
+      destruct (Hcases d) as [Hd|[[Hd1 Hd2]|Hc]]; [left|left|by right].
+      * unfold solvent in *. rewrite HU. unfold pending_wd, donations in *. cbn [set_l2 l1 l2 paid donated].
+        rewrite Hw. cbn [zsum L2.w_seq L2.w_denom L2.w_amt]. rewrite !Hs. subst d. rewrite Hl2d.
+        rewrite !bool_decide_eq_true_2 by done. lia.
+      * unfold solvent in *. rewrite HU. unfold pending_wd, donations in *. cbn [set_l2 l1 l2 paid donated].
+        rewrite Hw. cbn [zsum L2.w_seq L2.w_denom L2.w_amt]. rewrite !Hs.
+        rewrite (bool_decide_eq_false_2 (L1.e_l1denom ev = d)) by done.
+        rewrite (bool_decide_eq_false_2 (_ ∧ L1.e_l2denom ev = l2d c d)) by (intros [_ ?]; done). lia.
+    + rewrite Hn1. lia.
+    + rewrite Hw, fmap_cons. apply NoDup_cons. split; [|done]. cbn.
+      intros Hin'. apply elem_of_list_fmap in Hin' as (y & Hy & Hin'). apply I7 in Hin' as [Hlt' _]. lia.
+    + rewrite Hw, Hn2. intros w Hin'. apply elem_of_cons in Hin' as [->|Hin']; cbn.
+      * split; [lia|done].
+      * destruct (I7 w Hin'). split; [lia|]. by apply Hsub.
+    + intros m Hm. destruct (I8 m Hm) as (w & ? & ? & ?). exists w. rewrite Hw. split; [by right|done].
+Qed.
+
+Lemma step_claim c s e sender idx m lo hi v bh :
+  inv c s → inv c (sys_step c s (SClaim e sender idx m lo hi v bh)).1.
+Proof.
+  intros I. cbn [sys_step]. destruct (find_w (l2 s) m) as [w|] eqn:Hf; [|done].
+  apply find_elem in Hf as [Hin Hm]. apply N.eqb_eq in Hm.
+  unfold lift1, L1.step, claim_of. cbn [L1.handle].
+  destruct (L1.finalize _ _ _ _ _ _ _ _ _ _ _ _ _ _ _) as [[s1 r]|] eqn:Hd; [|done].
+  cbn [fst set_l1 l1 l2 paid donated].
+  apply l1_finalize_effect in Hd as (rcv & Hrcv & Hnp & Hbk & Hel & Hsq & Hpr).
+  change (leaf_hash _ _ _ _ _ _ _) with (wleaf c w) in Hnp, Hpr.
+  change (L1.escrow (c1 c) (bid c)) with (escrow_of c) in Hbk.
+  pose proof I as [I1 I2 I3 I4 I5 I6 I7 I8].
+  assert (Hmp : m ∉ paid s).
+  { intros Hp. destruct (I8 m Hp) as (w' & Hin' & Hs' & Hpv).
+    assert (w' = w) as -> by (eapply (nodup_key_inj L2.w_seq); eauto; congruence). done. }
+  destruct (I7 w Hin) as [_ Hpw]. pose proof (I2 _ _ Hpw) as Hwd.
+  apply bank_send_Some in Hbk as (_ & _ & Hg).
+  assert (HW : ∀ d', zsum (λ w0, if bool_decide (L2.w_seq w0 ∉ m :: paid s ∧ L2.w_denom w0 = d') then L2.w_amt w0 else 0%Z)
+                          (L2.wlog (l2 s)) =
+                     (pending_wd s d' - (if bool_decide (L2.w_denom w = d') then L2.w_amt w else 0))%Z).
+  { intros d'. unfold pending_wd.
+    rewrite (zsum_remove L2.w_seq
+               (λ w0, if bool_decide (L2.w_seq w0 ∉ paid s ∧ L2.w_denom w0 = d') then L2.w_amt w0 else 0%Z)
+               _ (L2.wlog (l2 s)) w I6 Hin).
+    - f_equal. assert (Hc : L2.w_denom w = d' ∨ L2.w_denom w ≠ d') by (destruct (decide (L2.w_denom w = d')); auto).
+      destruct Hc as [Hc|Hc].
+      + rewrite !bool_decide_eq_true_2; auto. split; [congruence|done].
+      + rewrite !bool_decide_eq_false_2; auto. by intros [_ ?].
+    - intros y Hy Hne. erewrite bool_decide_ext; [reflexivity|]. rewrite not_elem_of_cons. split.
+      + intros [[_ ?] ?]. done.
+      + intros [? ?]. split; [split; [congruence|done]|done].
+    - rewrite bool_decide_eq_false_2; [done|]. intros [Hx _]. apply Hx. rewrite Hm. by left. }
+  assert (Hcases : ∀ d, L2.w_base w = d ∨ (L2.w_base w ≠ d ∧ L2.w_denom w ≠ l2d c d) ∨ denom_collision c).
+  { intros d. destruct (decide (L2.w_base w = d)) as [|Hne]; [by left|right].
+    destruct (decide (L2.w_denom w = l2d c d)) as [Heq|]; [right|by left].
+    exists (L2.w_base w), d. split; [done|]. by rewrite <- Hwd. }
+  split; cbn [l1 l2 paid donated]; auto.
+  - intros d. destruct (I1 d) as [I1d|Hc]; [|by right]. clear I1.
+    destruct (Hcases d) as [Hd|[[Hd1 Hd2]|Hc]]; [left|left|by right].
+    + subst d. unfold solvent in *. unfold pending_dep, pending_wd, donations in *. cbn [l1 l2 paid donated].
+      rewrite (bevents_same c s1 (l1 s) Hel). fold (pending_wd s (l2d c (L2.w_base w))) in I1d.
+      rewrite HW, Hg. rewrite decide_True by done. rewrite <- Hwd. rewrite bool_decide_eq_true_2 by done.
+      case_bool_decide as Hesc.
+      * assert (rcv = escrow_of c) as -> by congruence. rewrite decide_True by done.
+        cbn [zsum fst snd]. rewrite bool_decide_eq_true_2 by done.
+        fold (pending_wd s (L2.w_denom w)). rewrite Hwd in *. lia.
+      * assert (rcv ≠ escrow_of c) by congruence. rewrite decide_False by congruence.
+        fold (pending_wd s (L2.w_denom w)). rewrite Hwd in *. lia.
+    + unfold solvent in *. unfold pending_dep, pending_wd, donations in *. cbn [l1 l2 paid donated].
+      rewrite (bevents_same c s1 (l1 s) Hel). fold (pending_wd s (l2d c d)) in I1d.
+      rewrite HW, Hg. rewrite decide_False by congruence. rewrite decide_False by congruence.
+      rewrite bool_decide_eq_false_2 by done.
+      case_bool_decide as Hesc.
+      * cbn [zsum fst snd]. rewrite bool_decide_eq_false_2 by done. fold (pending_wd s (l2d c d)). lia.
+      * fold (pending_wd s (l2d c d)). lia.
+  - by rewrite (bevents_same c s1 (l1 s) Hel).
+  - rewrite (bevents_same c s1 (l1 s) Hel), (seq_of_same _ _ _ Hsq). done.
+  - by rewrite (seq_of_same _ _ _ Hsq).
+  - intros m' Hm'. apply elem_of_cons in Hm' as [->|Hm'].
+    + exists w. split; [done|]. split; [done|]. rewrite Hpr. set_solver.
+    + destruct (I8 m' Hm') as (w' & ? & ? & ?). exists w'. split; [done|]. split; [done|]. rewrite Hpr. set_solver.
+Qed.
+
+(* ------------------------------------------------------------------------------------ *)
+(* 6. the theorems                                                                         *)
+(* ------------------------------------------------------------------------------------ *)
+Lemma step_inv c s m : inv c s → inv c (sys_step c s m).1.
+Proof.
+  intros I. destruct m as [e sender to d amt data|e from to d amt|m2|k ex h hook|e p idx l2b lo hi v bh|e ch idx|e sender idx m lo hi v bh].
+  - by apply step_deposit.
+  - by apply step_send1.
+  - by apply step_l2.
+  - by apply step_relay.
+  - cbn [sys_step]. apply step_propose_delete; [|done]. left. eauto.
+  - cbn [sys_step]. apply step_propose_delete; [|done]. right. eauto.
+  - by apply step_claim.
+Qed.
+
+Lemma run_inv c h : ∀ s, inv c s → inv c (sys_run c s h).
+Proof. induction h as [|m h IH]; intros s I; cbn; [done|]. apply IH. by apply step_inv. Qed.
+
+Lemma fresh_inv c s : fresh c s → inv c s.
+Proof.
+  intros (F1 & F2 & F3 & F4 & F5 & F6 & F7 & F8 & F9 & F10 & F11 & F12).
+  split.
+  - intros d. left. unfold solvent, pending_dep, pending_wd, donations, bevents.
+    rewrite F4, F10, F1, F6, F12. cbn. lia.
+  - intros d' base. rewrite F7. by rewrite lookup_empty.
+  - unfold bevents. rewrite F1. cbn. constructor.
+  - unfold bevents. rewrite F1. intros ev Hev. by apply elem_of_nil in Hev.
+  - rewrite F8, F5. lia.
+  - rewrite F6. constructor.
+  - rewrite F6. intros w Hw. by apply elem_of_nil in Hw.
+  - rewrite F11. intros m Hm. by apply elem_of_nil in Hm.
+Qed.
+
+Lemma c08_solvency_invariant c s0 h d :
+  fresh c s0 → solvent c (sys_run c s0 h) d ∨ denom_collision c.
+Proof. intros F. apply (i_solv _ _ (run_inv c h s0 (fresh_inv c s0 F))). Qed.
+
+(* the equation funds every unpaid recorded withdrawal, given that no ledger term is negative *)
+Lemma c08_drain_partial c s d w :
+  solvent c s d →
+  (0 ≤ gets (L2.bk (l2 s)) (l2d c d))%Z →
+  (∀ ev, ev ∈ bevents c (l1 s) → (0 ≤ L1.e_amt ev)%Z) →
+  (∀ w', w' ∈ L2.wlog (l2 s) → (0 ≤ L2.w_amt w')%Z) →
+  (∀ x, x ∈ donated s → (0 ≤ x.2)%Z) →
+  w ∈ L2.wlog (l2 s) → L2.w_seq w ∉ paid s → L2.w_denom w = l2d c d →
+  (L2.w_amt w ≤ getb (L1.bk (l1 s)) (escrow_of c) d)%Z.
+Proof.
+  intros Hs Hsup Hev Hw Hdn Hin Hnp Hd. unfold solvent in Hs. rewrite Hs.
+  assert (0 ≤ pending_dep c s d)%Z.
+  { apply zsum_nonneg. intros ev Hx. case_bool_decide; [by apply Hev|lia]. }
+  assert (0 ≤ donations s d)%Z.
+  { apply zsum_nonneg. intros x Hx. case_bool_decide; [by apply Hdn|lia]. }
+  assert (L2.w_amt w ≤ pending_wd s (l2d c d))%Z.
+  { unfold pending_wd.
+    pose proof (zsum_ge_elem (λ w0, if bool_decide (L2.w_seq w0 ∉ paid s ∧ L2.w_denom w0 = l2d c d)
+                                    then L2.w_amt w0 else 0%Z) (L2.wlog (l2 s)) w) as Hge.
+    cbn beta in Hge. rewrite bool_decide_eq_true_2 in Hge by done. apply Hge; [|done].
+    intros y Hy. case_bool_decide; [by apply Hw|lia]. }
+  lia.
+Qed.
+
+(* non-vacuity: fresh states exist (empty machines with the bridge's sequences at 1) *)
+Module C08Example.
+  Definition c : scfg :=
+    {| c1 := {| L1.resolve := λ _, None; L1.gov := []; L1.escrow := λ b, (1000 + b)%N; L1.pool := 50;
+                L1.hash := λ x, firstn_pad 32 x; L1.parse := λ _, None |};
+       c2 := {| L2.resolve := λ _, None; L2.blocked := λ _, false; L2.authority := []; L2.modacc := 100;
+                L2.feecol := 101 |};
+       bid := 1 |}.
+  Definition s0 : sys :=
+    {| l1 := L1.init_state;
+       l2 := {| L2.bk := bank_empty; L2.next_l1 := 1; L2.next_l2 := 1; L2.pairs := ∅;
+                L2.prm := {| L2.p_admin := []; L2.p_execs := []; L2.p_maxv := 1; L2.p_hist := 1;
+                             L2.p_mingas := []; L2.p_whitelist := []; L2.p_hookgas := 0 |};
+                L2.info := None; L2.vs := vempty; L2.seqs := ∅; L2.wlog := []; L2.dlog := [] |};
+       paid := []; donated := [] |}.
+  Example s0_fresh : fresh c s0.
+  Proof. repeat split; try reflexivity. Qed.
+End C08Example.
